@@ -33,6 +33,7 @@ from fractions import Fraction
 import common
 from common import enc, err_kind
 from props import c18_res
+from props import c18_tr
 
 ID = "C18"
 RULE = ("chunks: exhaustive grid (format b h i f d x byte-order spelling x size 1..9 x length 0..20 x strategy) and a "
@@ -56,6 +57,26 @@ RULE = ("chunks: exhaustive grid (format b h i f d x byte-order spelling x size 
         "non-trivial = at least one item in the input sequence / one sample in the file / one event in the history "
         "(concurrent: in some generator); distinct = distinct JSON case")
 TRUSTED = [
+    "source translator harness/props/c18_tr.py (ast -> lean/ALV/Gen/C18Src.lean, rewritten before every build; theorems "
+    "src_*_is_model in Props/C18.lean): it trusts (1) the Python-subset semantics it assumes: straight-line assignments "
+    "become `let`s in source order, `if c: x = a else: x = b` a conditional expression, `for el in G: yield e1; yield e2` "
+    "the flatMap of [e1, e2] over the list G yields, `for el in G: yield f(el)` the model's genMap (stops at the first "
+    "exception), `el[:k]` / `el[k:]` List.take / List.drop, `==` `!=` `*` `-` `//` `<<` on the small non-negative ints "
+    "bits / channels / widths the operators of Nat (`-` truncates at 0: unreachable, the KeyError of the table comes first), "
+    "`/` true division of an int by a positive int, a dict literal a list of pairs with unique keys, closures over self.bits / "
+    "self.channels / keep parameters; (2) the vocabulary mapping of Model/C18Src.lean: ord -> unpack8, "
+    "Struct(order+char).unpack(x)[0] -> unpackInt, `>>` on Python ints -> Int.shiftRight (arithmetic), w.readframes(n) until "
+    "b'' -> readLoop n (frames of sampwidth*channels bytes: the wave module), str(size)+dfmt / byte_order+dfmt -> format "
+    "parts, struct.Struct -> mkStruct, s.pack(*block) -> StructStr.pack (item count checked, elements by leElem), "
+    "blocks(seq, size, padval=p) -> C08's blocks with hop = size (property C08), `byte_order is None` -> OrderArg.isNone, "
+    "{...}.get(byte_order, sys.byteorder) -> orderGet; a construct outside this grammar is a TranslationError = broken "
+    "obligation.  The translator is itself checked on every run (extra check translator-selftest: 18 edited copies of the "
+    "source text must change the translation or be refused, 3 harmless edits must not, the unchanged text must reproduce "
+    "the committed file) and, independently, by the differential tie that runs the hand model the theorems equate it with",
+    "NOT under the translator (hand-written, tied by the differential correspondence only): the body of chunks.array apart "
+    "from its byte-order table and swap test (working array, export(), fill and pad loops: sha1 of the AST pinned in "
+    "c18_tr.ARRAY_REST_SHA1, an edit is a broken obligation until the model is re-read), the laziness / life-cycle machines "
+    "(wavNext, wavTake, Model/C18Res), the RIFF reader, parameter defaults of chunks.*",
     "call layer (ALV/Model/C18Call.lean): the binding of WavStream(*pos, **kw) to (wave_file, keep=False) is C08's "
     "model of Python's argument binding, the truth value of what was passed for keep is PyV.truthy (Float != 0.0 for "
     "floats: trusted), the seven spellings of byte_order are OrderArg; all three are compared with the real calls",
@@ -112,6 +133,11 @@ ASSUMPTIONS = [
 ]
 
 MANIFEST = {
+    "technique": ("Lean 4 machine-checked proof over an executable model + source translator harness/props/c18_tr.py (the "
+                  "_unpackers table as program values, WavStream.__init__ / block_reader / sample_reader / data_generator, "
+                  "chunks.struct and the byte-order table of chunks.array are regenerated from the source with ast into "
+                  "lean/ALV/Gen/C18Src.lean on every run and proved equal to the model: theorems src_*_is_model) + "
+                  "differential correspondence with the implementation"),
     "text": ("Lean 4 theorems, for all inputs: two's-complement and unsigned pack/unpack round trip on the full range of "
              "every width and both byte orders; the 24-bit WAV path sign-extends every three-byte string; WavStream "
              "over any well-formed 8/16/24/32-bit mono/stereo PCM data chunk yields exactly the stored integers "
@@ -1160,10 +1186,36 @@ def classify(c, io_, drv):
     return tag + ":model-only"
 
 
+def regenerate(eng=None):
+    """rewrite lean/ALV/Gen/C18Src.lean from lazy_wav.py / lazy_io.py of the repo under test (translator c18_tr); the
+    theorems src_*_is_model of Props/C18.lean are then re-checked against what the source says now"""
+    return c18_tr.regenerate(eng)
+
+
+def _translator_checks(eng):
+    if eng is not None and hasattr(eng, "extra"):
+        eng.extra["translated"] = {
+            "translator": "harness/props/c18_tr.py -> lean/ALV/Gen/C18Src.lean",
+            "under_translator": [{"function": f, "how": h} for f, h in c18_tr.TRANSLATED],
+            "not_translated": [{"function": f, "why": h} for f, h in c18_tr.NOT_TRANSLATED],
+        }
+    for item in c18_tr.selftest(base=c18_tr.committed() if common.REPO == "/repo" else None):
+        yield item
+    # the file the build used is the translation of the source as it is now (or the build was given the last good one)
+    try:
+        text, _ = c18_tr.translate(*c18_tr.read_source())
+        cur = open(os.path.join(common.LEAN, c18_tr.GEN_REL)).read()
+        yield ("translator: Gen/C18Src.lean on disk = translation of the source under test", text == cur, "differs")
+    except Exception as ex:   # noqa
+        yield ("translator: the source under test translates", False, "%s: %s" % (type(ex).__name__, str(ex)[:300]))
+
+
 def extra_checks(eng):
-    """platform assumptions of the model: the array item sizes and the native struct sizes of the five
+    """the translator's self-test; platform assumptions of the model: the array item sizes and the native struct sizes of the five
     formats are the standard ones, and the machine order is one of the two modelled"""
     import array
+    for item in _translator_checks(eng):
+        yield item
     ok = all(struct.calcsize(p + f) == WIDTH[f] for f in "bhifd" for p in ("", "@", "=", "<", ">", "!"))
     yield ("struct-sizes-standard", ok, "struct.calcsize of b h i f d is not 1 2 4 4 8 on this machine")
     ok = all(array.array(f).itemsize == WIDTH[f] for f in "bhifd")
